@@ -208,36 +208,54 @@ def chr_alts(name, vals):
     return [E(name)] + [E(name, val=v) for v in vals]
 
 
-def structures(ops):
+def structures(ops, only=None):
     """every structural element of the vocabulary, each optional child/attribute present or absent,
-    operands drawn from `ops` (lists of element descriptions wrapped into the operand element)"""
+    operands drawn from `ops` (lists of element descriptions wrapped into the operand element);
+    only: just the structures with that tag (same elements, same order, the others are not built)"""
+    for s_ in _structures(ops, (lambda t: True) if only is None else (lambda t: t == only)):
+        if only is None or s_[0] == only:
+            yield s_
+
+
+def _structures(ops, want):
     def W(name):
         return opt(*[E(name, *o) for o in ops])
-    yield from mk("f", opt(E("fPr", E("type", val="bar"))), W("num"), W("den"))
-    yield from mk("sSup", W("e"), W("sup"))
-    yield from mk("sSub", W("e"), W("sub"))
-    yield from mk("sSubSup", W("e"), W("sub"), W("sup"))
-    yield from mk("rad", opt(E("radPr", E("degHide", val="1"))), W("deg"), W("e"))
-    npr = [None, E("naryPr")] + [E("naryPr", c) for c in chr_alts("chr", ["∫", "∏", "", "α", "∐"])]
-    yield from mk("nary", npr, W("sub"), W("sup"), W("e"))
-    dpr = [None, E("dPr")] + [E("dPr", *[x for x in (b, e) if x is not None])
-                               for b in opt(*chr_alts("begChr", ["[", "", "|"])) for e in opt(*chr_alts("endChr", ["]", ""]))
-                               if b is not None or e is not None]
-    for pr in dpr:
-        for n in (0, 1, 2):
-            for es in itertools.product([E("e", *o) for o in ops[:3]], repeat=n):
-                yield E("d", *([pr] if pr is not None else []), *es)
-    for rows in ([], [[0]], [[0, 1]], [[0], [1]], [[0, 1], [1, 0]], [[]]):
-        yield E("m", *[E("mr", *[E("e", *ops[i % len(ops)]) for i in r]) for r in rows])
-    for j in range(2, len(ops)):                 # every operand option sits in a matrix cell at least once
-        yield E("m", E("mr", E("e", *ops[j])))
-        yield E("m", E("mPr", E("mcs")), E("mr", E("e", run("p")), E("e", *ops[j])), E("mr", E("e", *ops[j - 1]), E("e", run("q"))))
+    if want("f"):
+        yield from mk("f", opt(E("fPr", E("type", val="bar"))), W("num"), W("den"))
+    if want("sSup"):
+        yield from mk("sSup", W("e"), W("sup"))
+    if want("sSub"):
+        yield from mk("sSub", W("e"), W("sub"))
+    if want("sSubSup"):
+        yield from mk("sSubSup", W("e"), W("sub"), W("sup"))
+    if want("rad"):
+        yield from mk("rad", opt(E("radPr", E("degHide", val="1"))), W("deg"), W("e"))
+    if want("nary"):
+        npr = [None, E("naryPr")] + [E("naryPr", c) for c in chr_alts("chr", ["∫", "∏", "", "α", "∐"])]
+        yield from mk("nary", npr, W("sub"), W("sup"), W("e"))
+    if want("d"):
+        dpr = [None, E("dPr")] + [E("dPr", *[x for x in (b, e) if x is not None])
+                                   for b in opt(*chr_alts("begChr", ["[", "", "|"])) for e in opt(*chr_alts("endChr", ["]", ""]))
+                                   if b is not None or e is not None]
+        for pr in dpr:
+            for n in (0, 1, 2):
+                for es in itertools.product([E("e", *o) for o in ops[:3]], repeat=n):
+                    yield E("d", *([pr] if pr is not None else []), *es)
+    if want("m"):
+        for rows in ([], [[0]], [[0, 1]], [[0], [1]], [[0, 1], [1, 0]], [[]]):
+            yield E("m", *[E("mr", *[E("e", *ops[i % len(ops)]) for i in r]) for r in rows])
+        for j in range(2, len(ops)):                 # every operand option sits in a matrix cell at least once
+            yield E("m", E("mr", E("e", *ops[j])))
+            yield E("m", E("mPr", E("mcs")), E("mr", E("e", run("p")), E("e", *ops[j])), E("mr", E("e", *ops[j - 1]), E("e", run("q"))))
     yield from flagged()
     yield from with_properties()
-    yield from mk("func", opt(E("fName", run("sin")), E("fName", run(" lim ")), E("fName", run("f")), E("fName")), W("e"))
-    yield from mk("bar", opt(E("barPr", E("pos", val="top"))), W("e"))
-    apr = [None, E("accPr")] + [E("accPr", c) for c in chr_alts("chr", ["̃", "⃗", "x", ""])]
-    yield from mk("acc", apr, W("e"))
+    if want("func"):
+        yield from mk("func", opt(E("fName", run("sin")), E("fName", run(" lim ")), E("fName", run("f")), E("fName")), W("e"))
+    if want("bar"):
+        yield from mk("bar", opt(E("barPr", E("pos", val="top"))), W("e"))
+    if want("acc"):
+        apr = [None, E("accPr")] + [E("accPr", c) for c in chr_alts("chr", ["̃", "⃗", "x", ""])]
+        yield from mk("acc", apr, W("e"))
 
 
 FLAG_VALS = [None, "1", "0", "on", "off", "true", "false", "Off ", "TRUE"]
@@ -330,10 +348,53 @@ def scope(seed=0, budget=None):
     # oMathPara wrapper and property elements interleaved
     for s in reps:
         yield E("oMathPara", E("oMathParaPr", E("jc", val="center")), E("oMath", E("ctrlPr"), s, E("ctrlPr")))
+    # deep nesting (level-dependent behaviour)
+    for s in towers():
+        yield E("oMath", s)
+        yield E("oMath", run("p"), s, run("q"))
     # random deeper trees
     rnd = random.Random(seed)
     for _ in range(400 if budget is None else budget):
         yield E("oMath", *[rand_tree(rnd, 3) for _ in range(rnd.randint(1, 3))])
+
+
+TOWER_DEPTHS = (8, 16, 32, 64)
+
+
+def tower_levels():
+    """(tag, builder(inner)) for every structure with ONE operand slot holding the next level and plain runs in the others"""
+    x = lambda t="x": run(t)
+    return [
+        ("f", lambda i: E("f", E("num", i), E("den", x("b")))),
+        ("f", lambda i: E("f", E("num", x("α")), E("den", i))),
+        ("sSup", lambda i: E("sSup", E("e", x()), E("sup", i))),
+        ("sSub", lambda i: E("sSub", E("e", i), E("sub", x("k")))),
+        ("sSubSup", lambda i: E("sSubSup", E("e", x()), E("sub", i), E("sup", x("2")))),
+        ("rad", lambda i: E("rad", E("radPr", E("degHide", val="1")), E("deg"), E("e", i))),
+        ("rad", lambda i: E("rad", E("deg", i), E("e", x()))),
+        ("nary", lambda i: E("nary", E("naryPr", E("chr", val="∫")), E("sub", x("i")), E("sup", x("n")), E("e", i))),
+        ("d", lambda i: E("d", E("dPr", E("begChr", val="["), E("endChr", val="]")), E("e", i))),
+        ("m", lambda i: E("m", E("mr", E("e", i), E("e", x("v"))))),
+        ("func", lambda i: E("func", E("fName", x("sin")), E("e", i))),
+        ("bar", lambda i: E("bar", E("e", i))),
+        ("acc", lambda i: E("acc", E("accPr", E("chr", val="̃")), E("e", i))),
+        ("box", lambda i: E("box", E("boxPr"), E("e", x("g"), i))),
+    ]
+
+
+def towers(depths=TOWER_DEPTHS):
+    """nesting many levels deep (the property quantifies over ALL trees; behaviour that depends on the nesting level --
+    recursion guards, depth budgets, level counters -- only shows beyond the depth of authored examples): every structure
+    nested in its own operand slot, and all structures in rotation, `depth` levels, a skipped property element and a run
+    beside the innermost one.  Depths stay far below the interpreter's recursion limit (3 frames per level)."""
+    lv = tower_levels()
+    for depth in depths:
+        for k in range(len(lv) + 1):
+            inner = E("r", E("rPr", E("sty", val="p")), E("t", text="z"))
+            for j in range(depth):
+                tag, mkl = lv[k] if k < len(lv) else lv[(depth - 1 - j) % len(lv)]
+                inner = mkl(inner)
+            yield inner
 
 
 def representatives(d1):
@@ -579,10 +640,9 @@ def template_scope(tag):
     d1 = [s for s in structures(FREE_OPS)]
     yield from (s for s in d1 if s[0] == tag)
     yield from (s for s in one_slot(RICH + RICH2) if s[0] == tag)
+    yield from (s for s in towers() if s[0] == tag)        # (few; before the large product below)
     reps = RICH + representatives(d1)
-    for s in structures([[r] for r in reps]):
-        if s[0] == tag:
-            yield s
+    yield from structures([[r] for r in reps], only=tag)
 
 
 def template_check(fn, conv, s):
@@ -1023,7 +1083,8 @@ def _find(req):
                 d = E("oMath", s_)
                 return {"reproduced": True, "target": "omml_to_latex.py::omml_to_latex", "check": bad[0],
                         "inputs": {"xml": xml_of(d), "tree": d}, "expected": bad[1], "observed": bad[2], "tried": tried}
-        which = "all"
+        # any failing input of the property confirms: the full executable contract, searched once per source state (cached)
+        return find({"obligation": ""})
     if which == "all":
         bad = greek_check(m)                     # every mapped symbol, alone and inside a run
         if bad is not None:
@@ -1033,7 +1094,17 @@ def _find(req):
         mm = validate_model(itertools.islice(scope(seed, budget=50), 0, 4000))
         if mm is not None:
             return {"reproduced": False, "note": "MODEL-MISMATCH (assumed library model contradicted natively): " + mm}
-    for w in ([which] if which == "all" else [which, "all"]):       # any failing input of the property confirms
+    if which != "all":
+        if not which.startswith("template."):          # (a template category has its own scope above; `check` has no per-tag part)
+            for d in scope(seed):
+                tried += 1
+                bad = check(fn, conv, d, which)
+                if bad is not None:
+                    return {"reproduced": True, "target": "omml_to_latex.py::omml_to_latex", "check": bad[0],
+                            "inputs": {"xml": xml_of(d), "tree": d}, "expected": bad[1], "observed": bad[2], "tried": tried}
+        # any failing input of the property confirms: the full executable contract, searched once per source state (cached)
+        return find({"obligation": ""})
+    for w in ["all"]:
         for d in scope(seed):
             tried += 1
             bad = check(fn, conv, d, w)
